@@ -31,6 +31,7 @@ type Config struct {
 	AppendSlack int
 	FPReal      bool
 	ConcOff     bool
+	AllowUnwind bool
 	Verbose     bool
 	MaxViol     int
 	SolverLog   string
@@ -396,7 +397,9 @@ func (in *Interp) runPath(prefix []decision) {
 	case "panic":
 		in.reportViolation("panic", pe.Msg, pe.Pos)
 	case "unwind":
-		in.reportViolation("unwind", pe.Msg, pe.Pos)
+		if !e.cfg.AllowUnwind {
+			in.reportViolation("unwind", pe.Msg, pe.Pos)
+		}
 	}
 	in.sol.onRestart = nil
 	in.sol.Pop()
@@ -1032,7 +1035,7 @@ func (in *Interp) vector(m Model) []map[string]interface{} {
 		r := map[string]interface{}{"name": nd.Name, "kind": nd.Kind}
 		if nd.Kind == "bytes" {
 			l := ev(nd.Len)
-			if l > uint64(len(nd.Terms)) {
+			if len(nd.Terms) > 0 && l > uint64(len(nd.Terms)) {
 				l = uint64(len(nd.Terms))
 			}
 			bs := make([]int, len(nd.Terms))
